@@ -119,6 +119,12 @@ func c02(c *Ctx) {
 			}
 		}
 		_ = tail
+		// the comparator touches the elements through comparisons only: evaluate it for all nine orderings of
+		// (remainder, name); that decides the order it defines however the tests are arranged
+		if holds, decided := lessIsLexicographic(s.Pkg.TypesInfo, s.Lit, []string{"remainder", "name"}, []bool{true, false}); decided {
+			r.Check(holds, "SORT", s.Encl+"/name-tiebreak", c.Pos(s.Call.Pos()), "order: remainder descending, then name ascending (all 9 orderings of the two keys evaluated)", "the remainder sort is not 'larger remainder first, equal remainders by name' for some ordering of the two keys: equal remainders are then ordered by map iteration order, or the remainder order is wrong")
+			continue
+		}
 		r.Check(lastKey == "name" && len(keys) >= 1 && strings.HasPrefix(keys[0], "remainder"), "SORT", s.Encl+"/name-tiebreak", c.Pos(s.Call.Pos()), "order: "+strings.Join(keys, ",")+" then name", "the remainder sort does not end in the name tiebreak (keys: "+strings.Join(keys, ",")+", last: "+lastKey+"): equal remainders are ordered by map iteration order")
 	}
 	if !found {
@@ -747,7 +753,7 @@ func c02exactRest(c *Ctx) {
 				}
 			}
 		}
-		r.Check(ok && n >= 2, "SCALE", key, c.Pos(fn.Pos()), sprintf("%d writes, all for dimensions listed under total < sum", n), sprintf("the scaled minimum is rewritten for dimensions that are not short (%d writes; %s)", n, why))
+		r.Check(ok && n >= 1, "SCALE", key, c.Pos(fn.Pos()), sprintf("%d writes, all for dimensions listed under total < sum", n), sprintf("the scaled minimum is rewritten for dimensions that are not short (%d writes; %s)", n, why))
 	}
 }
 
